@@ -50,6 +50,7 @@ type c18Scenario struct {
 	Initial []int     `json:"initial_interceptors"`
 	Twin    bool      `json:"two_instances_from_one_slice"`
 	DefTwin bool      `json:"two_default_constructed_instances"`
+	APIHdr  bool      `json:"api_has_default_header,omitempty"`
 	Steps   []c18Step `json:"steps"`
 
 	h      *Hist
@@ -81,6 +82,7 @@ func genC18(t *simrt.Tape, tier string) Scenario {
 	// two SimpleHTTP objects constructed from the same interceptor slice (with spare capacity): what one
 	// instance registers must never show up in the other
 	sc.Twin = t.Bool(1, 4)
+	sc.APIHdr = t.Bool(1, 2)
 	if sc.Twin && t.Bool(1, 3) {
 		// both objects come from NewSimpleHTTP() (own http.Client each, default transport = the stub)
 		sc.DefTwin = true
@@ -92,7 +94,7 @@ func genC18(t *simrt.Tape, tier string) Scenario {
 		maxSteps = 14
 	}
 	n := 1 + t.Choose(maxSteps)
-	verbs := []string{"Get", "Head", "Options", "Delete", "Post", "Put", "Patch", "API"}
+	verbs := []string{"Get", "Head", "Options", "Delete", "Post", "Put", "Patch", "API", "APIDelete", "APIPost"}
 	for i := 0; i < n; i++ {
 		switch t.ChooseW([]int{4, 2, 1, 2, 6, 1}) {
 		case 5:
@@ -188,7 +190,7 @@ func (sc *c18Scenario) Run(s *simrt.Sim) {
 				panic("interceptor chain recursion")
 			}
 			log = append(log, fmt.Sprintf("ic%d", i))
-			req.Header.Set(fmt.Sprintf("X-Ic-%d", i), "set")
+			req.Header.Add(fmt.Sprintf("X-Ic-%d", i), "set")
 			my := calls
 			calls++
 			if my == failAt {
@@ -247,6 +249,13 @@ func (sc *c18Scenario) Run(s *simrt.Sim) {
 		apis = append(apis, network.NewSimpleAPIWithSimpleHTTP("http://c18.example.test", sh2))
 		models = append(models, append([]int{}, model...))
 	}
+	if sc.APIHdr {
+		// the APIs carry a (non-nil) default header; requests get a copy of it, so what interceptors write into
+		// one request's header never shows up in another request
+		for _, a := range apis {
+			a.DefaultHeader = http.Header{"X-Api-Default": {"d"}}
+		}
+	}
 	curInst := 0
 	curCli := 0
 	add := func(clause, fp, detail string) {
@@ -281,6 +290,20 @@ func (sc *c18Scenario) Run(s *simrt.Sim) {
 					V int `json:"v"`
 				}
 				ar := network.APIMakeGet[resp](api, "x")(network.PathParam{}, &resp{}).Eval()
+				if ar != nil {
+					rerr = ar.Err
+				}
+				return nil, nil
+			case "APIDelete", "APIPost":
+				type resp struct {
+					V int `json:"v"`
+				}
+				var ar *network.APIResponse[resp]
+				if verb == "APIDelete" {
+					ar = network.APIMakeDelete[resp](api, "x")(nil, &resp{}).Eval()
+				} else {
+					ar = network.APIMakePostJSONBody[map[string]int, resp](api, "x")(nil, map[string]int{"a": 1}, &resp{}).Eval()
+				}
 				if ar != nil {
 					rerr = ar.Err
 				}
@@ -361,7 +384,7 @@ func (sc *c18Scenario) Run(s *simrt.Sim) {
 				failAt = fp
 				netErr = nil
 				if fp == len(model)+1 {
-					if st.Verb == "Post" || st.Verb == "Put" || st.Verb == "Patch" {
+					if st.Verb == "Post" || st.Verb == "Put" || st.Verb == "Patch" || st.Verb == "APIPost" {
 						continue // a 307 re-sends the body, which needs GetBody: not the subject here
 					}
 					failAt = -1
@@ -462,6 +485,19 @@ func (sc *c18Scenario) Run(s *simrt.Sim) {
 					for _, i := range model {
 						if seen.Get(fmt.Sprintf("X-Ic-%d", i)) != "set" {
 							add("headers", "interceptor-header-missing-at-transport", ctx+fmt.Sprintf(": header of interceptor %d missing in %v", i, seen))
+							break
+						}
+					}
+					// ... and nothing but what the registered interceptors wrote into THIS request: every interceptor
+					// adds one value per invocation, so a header of a removed interceptor, or a value left over from an
+					// earlier request, shows up as a surplus
+					times := map[int]int{}
+					for _, i := range model {
+						times[i]++
+					}
+					for i := 0; i < sc.NIcs; i++ {
+						if n := len(seen.Values(fmt.Sprintf("X-Ic-%d", i))); n > times[i] {
+							add("headers", "header-of-another-request-or-removed-interceptor-at-transport", ctx+fmt.Sprintf(": the transport saw %d values written by interceptor %d, which is registered %d times; header %v", n, i, times[i], seen))
 							break
 						}
 					}
